@@ -9,9 +9,9 @@
 (* property invariants of the module are evaluated in every state of the    *)
 (* replayed behaviour.                                                      *)
 EXTENDS QueryLifecycle, Json, IOUtils, SequencesExt
-VARIABLES l, tb     \* next trace line; line of the current Begin event
+VARIABLES l, tb, seen   \* next trace line; line of the current Begin event; the packets observed on the wire so far
 Trace == ndJsonDeserialize(IOEnv.TRACE)
-tvars == <<vars, l, tb>>
+tvars == <<vars, l, tb, seen>>
 Ev == Trace[l]
 IsEvent(e) == l <= Len(Trace) /\ Ev.ev = e /\ l' = l + 1
 
@@ -19,10 +19,10 @@ CfgOf(e) == [scn |-> e.cfg.scn, needInfo |-> e.cfg.needInfo, ext |-> e.cfg.ext, 
              plan |-> e.cfg.plan, present |-> ToSet(e.cfg.present), rfail |-> e.cfg.rfail, rcancel |-> e.cfg.rcancel,
              initRows |-> e.cfg.initRows, wbreak |-> e.cfg.wbreak]
 
-TInit == /\ Len(Trace) >= 1 /\ Trace[1].ev = "Begin" /\ InitWith(CfgOf(Trace[1])) /\ l = 2 /\ tb = 1
+TInit == /\ Len(Trace) >= 1 /\ Trace[1].ev = "Begin" /\ InitWith(CfgOf(Trace[1])) /\ l = 2 /\ tb = 1 /\ seen = <<>>
 
 TBegin ==
-  /\ IsEvent("Begin") /\ tb' = l
+  /\ IsEvent("Begin") /\ tb' = l /\ seen' = <<>>
   /\ LET c == CfgOf(Ev) IN
      /\ cfg' = c
      /\ spc' = "start" /\ rpc' = "loop" /\ wpc' = "wait"
@@ -34,18 +34,24 @@ TBegin ==
      /\ ver' = 1 /\ rows' = c.initRows /\ tail' = FALSE /\ round' = 0 /\ cbS' = 0
      /\ cbR' = 0 /\ seenRows' = FALSE /\ cblog' = <<>>
      /\ call' = 1 /\ phase' = "inDo" /\ wbroken' = FALSE
-     /\ cancelAt' = "none" /\ cancelClean' = FALSE /\ lateFault' = FALSE
+     /\ cancelAt' = "none" /\ cancelClean' = FALSE /\ lateFault' = FALSE /\ stalled' = FALSE
      /\ hist' = <<>>
 
 \* what this step added to the wire / to the callback log, as the trace shows it
 Proj(seq) == [i \in 1..Len(seq) |-> [k |-> seq[i].k, v |-> seq[i].v]]
-WireDelta == Proj(SubSeq(c2s', Len(c2s) + 1, Len(c2s')))
+(* The packets observed on the wire are, in order, the packets the specification says were written - the       *)
+(* property speaks about WHAT reaches the server and in which order, not about which call flushes it, so the    *)
+(* observed stream may lag behind the model's (a client that holds output back longer is not wrong for that);   *)
+(* it is complete when Do returns and at the next request.                                                       *)
 CbDelta == SubSeq(cblog', Len(cblog) + 1, Len(cblog'))
-Obs == /\ Len(c2s') >= Len(c2s) /\ SubSeq(c2s', 1, Len(c2s)) = c2s /\ WireDelta = Ev.wire
+WireOK == /\ seen' = seen \o Ev.wire
+          /\ Len(seen') <= Len(c2s') /\ SubSeq(Proj(c2s'), 1, Len(seen')) = seen'
+WireAll == seen' = seen \o Ev.wire /\ seen' = Proj(c2s')
+Obs == /\ WireOK
        /\ Len(cblog') >= Len(cblog) /\ CbDelta = Ev.cbs
 
 TMove ==
-  /\ IsEvent("Move") /\ UNCHANGED <<tb, hist>>
+  /\ IsEvent("Move") /\ UNCHANGED <<tb, hist, stalled>>
   /\ CASE Ev.role = "S" -> /\ spc = Ev.from /\ SenderNext /\ spc' = Ev.to
                            /\ ("errc" \in DOMAIN Ev => rerr'["S"] = Ev.errc)
        [] Ev.role = "R" -> /\ rpc = Ev.from
@@ -57,14 +63,15 @@ TMove ==
   /\ Obs
 
 TEnv ==
-  /\ IsEvent("Env") /\ UNCHANGED <<tb, hist>>
-  /\ CASE Ev.a = "V" -> sidx = Ev.i /\ ServerSend
-       [] Ev.a = "C" -> CallerCancel("cancelled")
-       [] Ev.a = "D" -> CallerCancel("deadline")
-       [] Ev.a = "X" -> ForeignClose
+  /\ IsEvent("Env") /\ UNCHANGED <<tb, hist, seen>>
+  /\ CASE Ev.a = "V" -> sidx = Ev.i /\ ServerSend /\ UNCHANGED stalled
+       [] Ev.a = "C" -> CallerCancel("cancelled") /\ UNCHANGED stalled
+       [] Ev.a = "D" -> CallerCancel("deadline") /\ UNCHANGED stalled
+       [] Ev.a = "X" -> ForeignClose /\ UNCHANGED stalled
+       [] Ev.a = "Z" -> Stall
 
 TSilent == /\ \E x \in Roles : G_Once(x)
-           /\ UNCHANGED <<l, tb>>
+           /\ UNCHANGED <<l, tb, seen>>
 
 \* the exception Do returned is the one the server sent: whole chain, matchable by every code
 ExcOK ==
@@ -78,19 +85,19 @@ ExcOK ==
     ELSE TRUE
 
 TDoReturn ==
-  /\ IsEvent("DoReturn") /\ UNCHANGED <<tb, hist>>
+  /\ IsEvent("DoReturn") /\ UNCHANGED <<tb, hist, stalled>>
   /\ DoReturn
   /\ Ev.err = (IF firstErr = "none" THEN "nil" ELSE firstErr)
   /\ Ev.closed = closed /\ Ev.connClosed = connClosed
-  /\ Ev.wire = <<>> /\ Ev.cbs = <<>>
+  /\ WireAll /\ Ev.cbs = <<>>
   /\ Ev.orphans = 0
   /\ ExcOK
   /\ (firstErr = "ctx" => Ev.ctxMatch)
 
 TNext ==
-  /\ IsEvent("Next") /\ UNCHANGED <<tb, hist>>
+  /\ IsEvent("Next") /\ UNCHANGED <<tb, hist, stalled>>
   /\ NextReq
-  /\ Len(c2s') >= Len(c2s) /\ WireDelta = Ev.wire
+  /\ WireAll
   /\ Ev.err = (IF closed THEN "closed" ELSE IF wbroken THEN "err" ELSE "nil")
   /\ (closed => ~Ev.touched)
   /\ Ev.closed = closed
